@@ -32,6 +32,9 @@ type Spec struct {
 	Olds []Blob `json:"olds"`
 	New  Blob   `json:"new"`
 	Pref int    `json:"pref"`
+	// Rd, when not empty, slices the reads of the source (as the io.Pipe the
+	// real differ reads from does); first byte odd: last bytes come with io.EOF.
+	Rd []byte `json:"rd,omitempty"`
 }
 
 type memPool struct{ files [][]byte }
@@ -75,7 +78,7 @@ type verdict struct {
 }
 
 // judge runs the differ on (bs, files, src, pref) and applies the oracle.
-func judge(bs int, files [][]byte, src []byte, pref int64, viaApply bool) (v verdict) {
+func judge(bs int, files [][]byte, src []byte, pref int64, viaApply bool, rd ...byte) (v verdict) {
 	ctx := ctxFor(bs)
 	hs, err := sign(ctx, files)
 	if err != nil {
@@ -84,7 +87,11 @@ func judge(bs int, files [][]byte, src []byte, pref int64, viaApply bool) (v ver
 	}
 	lib := wsync.NewBlockLibrary(hs)
 	var ops []wsync.Operation
-	err = ctx.ComputeDiff(bytes.NewReader(src), lib, func(op wsync.Operation) error {
+	var source io.Reader = bytes.NewReader(src)
+	if len(rd) > 0 {
+		source = h.NewSlicedReader(source, h.NewJitter(rd, 0))
+	}
+	err = ctx.ComputeDiff(source, lib, func(op wsync.Operation) error {
 		if op.Type == wsync.OpData {
 			op.Data = append([]byte{}, op.Data...)
 		}
@@ -186,8 +193,14 @@ func check(s Spec) h.Result {
 	if s.BS < 1 {
 		return h.Result{Skip: "bs<1"}
 	}
-	v := judge(s.BS, files, src, int64(s.Pref), true)
+	v := judge(s.BS, files, src, int64(s.Pref), true, s.Rd...)
 	var cl []string
+	if len(s.Rd) > 0 {
+		cl = append(cl, "source:sliced-reads")
+		if s.Rd[0]&1 == 1 {
+			cl = append(cl, "source:last-bytes-with-EOF")
+		}
+	}
 	cl = append(cl, fmt.Sprintf("bs:%d", s.BS))
 	if v.hasRange {
 		cl = append(cl, "op:range")
@@ -341,6 +354,9 @@ var propSmall = h.Prop[Spec]{
 		}
 		s.New = str(9, "new")
 		s.Pref = rapid.IntRange(-1, nold-1).Draw(t, "pref")
+		if rapid.IntRange(0, 2).Draw(t, "sliced-source") == 0 {
+			s.Rd = rapid.SliceOfN(rapid.Byte(), 1, 8).Draw(t, "rd")
+		}
 		return s
 	},
 	Check:     check,
@@ -432,6 +448,9 @@ var propLarge = h.Prop[Spec]{
 			s.New.C = h.Content{}
 		}
 		s.Pref = rapid.IntRange(-1, nold-1).Draw(t, "pref")
+		if rapid.IntRange(0, 2).Draw(t, "sliced-source") == 0 {
+			s.Rd = rapid.SliceOfN(rapid.Byte(), 1, 8).Draw(t, "rd")
+		}
 		return s
 	},
 	Check: check,
